@@ -97,6 +97,8 @@ def install_split_monitor(world):
 
 
 async def prog_arith(mpc, ctx):
+    if getattr(ctx, 'set_t', None) is not None:
+        mpc.threshold = ctx.set_t          # the program changes the threshold before start()
     await mpc.start()
     a0, b0 = ctx.inputs
     secint = mpc.SecInt(4)
@@ -143,6 +145,8 @@ async def prog_arith(mpc, ctx):
 
 async def prog_random(mpc, ctx):
     """Secure randomness: PRSS (or dealt) random field elements, bits, bounded randoms."""
+    if getattr(ctx, 'set_t', None) is not None:
+        mpc.threshold = ctx.set_t          # the program changes the threshold before start()
     await mpc.start()
     secint = mpc.SecInt(4)
     secfld = mpc.SecFld(101)
@@ -177,6 +181,8 @@ async def prog_random(mpc, ctx):
 
 
 async def prog_fxp_conv(mpc, ctx):
+    if getattr(ctx, 'set_t', None) is not None:
+        mpc.threshold = ctx.set_t          # the program changes the threshold before start()
     await mpc.start()
     a0, b0 = ctx.inputs
     secfxp = mpc.SecFxp(8, 3)
@@ -229,6 +235,14 @@ def plan(prop, tier, seed):
                 for k in range(0, len(pairs), chunk):
                     jobs.append(dict(prop=prop, m=m, t=t, no_prss=no_prss, prog=name, pairs=pairs[k:k + chunk],
                                      seed=seed, bound=1 if (tier == 'thorough' and m == 3 and k == 0) else 0))
+    # threshold changed by the program through the Runtime.threshold setter (setup with t0, run with t)
+    for (m, t0, t) in ((3, 0, 1), (4, 0, 1), (5, 1, 2)) + (() if tier == 'quick' else ((3, 1, 0), (5, 2, 1), (4, 1, 0))):
+        if prop == 'C14' and t < 1:
+            continue
+        for no_prss in (False, True):
+            for name in PROGS:
+                pairs = [(0, 0)] if name == 'random' else [(-8, 7), (3, 3), (-1, 2)] if name == 'arith' else [(-8, -4), (5, 3)]
+                jobs.append(dict(prop=prop, m=m, t=t, t0=t0, no_prss=no_prss, prog=name, pairs=pairs, seed=seed, bound=0))
     return jobs
 
 
@@ -241,14 +255,15 @@ def collect_sent(world):
 def run_job(job):
     part = Part()
     m, t = job['m'], job['t']
-    world = World(m, t, job['no_prss'], seed=job['seed'])
+    world = World(m, job.get('t0', t), job['no_prss'], seed=job['seed'])
+    world.t = t                      # the threshold the program runs with (set by the program itself when t0 is given)
     install_split_monitor(world)
     world.capture_payloads = True
     for sm in world.seams:
         sm.trace = None
     _patch_seam_trace(world)
     prog = PROGS[job['prog']]
-    cfg = f"{job['prog']}/m{m}t{t}{'-noprss' if job['no_prss'] else ''}"
+    cfg = f"{job['prog']}/m{m}t{t}{'(set from %d)' % job['t0'] if 't0' in job else ''}{'-noprss' if job['no_prss'] else ''}"
     for pair in job['pairs']:
         ctxs = []
         sent = []
@@ -260,6 +275,7 @@ def run_job(job):
             w.on_write = lambda src, dst, data: sent.append((w.steps, src, dst, bytes(data)))
             for p in range(m):
                 ctxs.append(Ctx(w, p, pair))
+                ctxs[p].set_t = t if 't0' in job else None
                 w.spawn(p, prog, ctxs[p])
 
         def judge(w, x, pair=pair):
